@@ -21,6 +21,7 @@ import (
 	"github.com/formancehq/go-libs/v5/pkg/types/time"
 
 	ledger "github.com/formancehq/ledger/internal"
+	"github.com/formancehq/ledger/internal/storage/common"
 	"github.com/formancehq/ledger/internal/tracing"
 	"github.com/formancehq/ledger/pkg/features"
 )
@@ -333,7 +334,7 @@ func assetAddressArray(v any) ([]string, error) {
 	})
 	for _, address := range addresses {
 		if isPartialAddress(address) {
-			return nil, NewErrInvalidQuery("IN operator only supports full addresses")
+			return nil, common.NewErrInvalidQuery("IN operator only supports full addresses")
 		}
 	}
 
